@@ -769,7 +769,7 @@ func c11(c *core.Ctx, r *core.Report) {
 		}
 		for _, pair := range [][2]ssa.Value{{bo.X, bo.Y}, {bo.Y, bo.X}} {
 			if call, ok := noConv(pair[0]).(*ssa.Call); ok && an.Callee(call) != nil && an.Callee(call).Name() == "PDF" {
-				if f, owner := an.TerminalField(pair[1]); f != nil && an.IsNamed(owner, core.ModPath+"/"+gpkg, "Calculator") {
+				if f, owner := an.TerminalField(pair[1]); f != nil && nestedIn(c, owner, core.ModPath+"/"+gpkg, "Calculator") {
 					scaleFld = f
 				}
 			}
@@ -846,11 +846,11 @@ func c11(c *core.Ctx, r *core.Report) {
 						return true, "remainder (inductively a fractional part; zero value initially)"
 					}
 					// configuration-derived float fields / elements of the calculator
-					if f, owner := an.TerminalField(x); f != nil && an.IsNamed(owner, core.ModPath+"/"+gpkg, "Calculator") {
+					if f, owner := an.TerminalField(x); f != nil && nestedIn(c, owner, core.ModPath+"/"+gpkg, "Calculator") {
 						return true, "assumed ≥ 0: " + an.D().Of(x)
 					}
 					if ia, ok := x.X.(*ssa.IndexAddr); ok {
-						if f, owner := an.TerminalField(ia.X); f != nil && an.IsNamed(owner, core.ModPath+"/"+gpkg, "Calculator") {
+						if f, owner := an.TerminalField(ia.X); f != nil && nestedIn(c, owner, core.ModPath+"/"+gpkg, "Calculator") {
 							return true, "assumed ≥ 0: " + an.D().Of(x)
 						}
 					}
